@@ -68,6 +68,30 @@ theorem border_box_width (isPage : Bool) (s : CStyle) (cbW cbH w : Rat) (h : s.s
     · have hd : w = 0 := by grind
       simp only [hd]
 
+/-- CSS 2.1 §10.5 / §10.7 with an **indefinite containing-block height** (`cb_height == 'auto'`): a percentage
+`height` is `auto`, a percentage `min-height` is 0 and a percentage `max-height` (other than `0%`) is `none`; a length
+is itself (content-box). -/
+theorem auto_height_percentages (isPage : Bool) (s : CStyle) (cbW p : Rat) (hs : s.sizing = .contentBox) :
+    (s.height = .pct p → (resolvePercentagesAutoHeight isPage s cbW).base.height = none) ∧
+    (s.minH = .pct p → (resolvePercentagesAutoHeight isPage s cbW).base.minH = 0) ∧
+    (s.maxH = .pct p → p ≠ 0 → (resolvePercentagesAutoHeight isPage s cbW).maxH = .inf) ∧
+    (∀ v, s.height = .px v → (resolvePercentagesAutoHeight isPage s cbW).base.height = some v) := by
+  have hd : ∀ a b c d, sizingDelta s.sizing a b c d = 0 := by intro a b c d; simp [sizingDelta, hs]
+  have hlt : ¬ ((0 : Rat) > 0) := by decide +kernel
+  refine ⟨?_, ?_, ?_, ?_⟩
+  · intro h; simp [resolvePercentagesAutoHeight, hd, hlt, h]
+  · intro h; simp [resolvePercentagesAutoHeight, hd, hlt, h, resolveMinDim, Dim.resolve]; grind
+  · intro h hp; simp [resolvePercentagesAutoHeight, hd, hlt, h, MaxDim.resolveInf, hp]
+  · intro v h; simp [resolvePercentagesAutoHeight, hd, hlt, h]
+
+/-- The horizontal properties do not depend on whether the containing-block height is definite. -/
+theorem auto_height_same_horizontal (s : CStyle) (cbW cbH : Rat) :
+    let a := (resolvePercentagesAutoHeight false s cbW).base
+    let u := resolvePercentages false s cbW cbH
+    a.ml = u.ml ∧ a.mr = u.mr ∧ a.mt = u.mt ∧ a.mb = u.mb ∧ a.pl = u.pl ∧ a.pr = u.pr ∧ a.pt = u.pt ∧ a.pb = u.pb ∧
+    a.width = u.width ∧ a.minW = u.minW ∧ a.maxW = u.maxW := by
+  simp [resolvePercentagesAutoHeight, resolvePercentages, maybeHeight]
+
 /-! ## Refinement: the page / margin-box models are `resolve_percentages` + the page algorithms -/
 
 private theorem resolveMin_eq (d : Dim) (r : Rat) : resolveMin d r = resolveMinDim d r := by
